@@ -130,10 +130,31 @@ def strategy(ctx):
 
 
 def oracle(ctx, text, name="in.nano", budget=None):
-    """Returns (verdict, detail): ok / violation / inconclusive."""
+    """Returns (verdict, detail): ok / violation / inconclusive.
+    `text` is one source text, or a JSON bundle {"files": {name: text}, "main": name} for inputs made of several files."""
+    raw = text if isinstance(text, bytes) else text.encode("utf-8", "surrogateescape")
+    if raw.startswith(b'{') and b'"files"' in raw[:200]:
+        try:
+            bundle = json.loads(raw.decode("utf-8"))
+        except ValueError:
+            bundle = None
+        if bundle and isinstance(bundle.get("files"), dict):
+            d = os.path.join(ctx.dir, "multi_" + name.replace(".nano", ""))
+            shutil.rmtree(d, ignore_errors=True)
+            os.makedirs(d)
+            for fn_, ft in bundle["files"].items():
+                with open(os.path.join(d, os.path.basename(fn_)), "w", encoding="utf-8", newline="") as fh:
+                    fh.write(ft)
+            saved = ctx.dir
+            ctx.dir = d
+            try:
+                return oracle(ctx, bundle["files"][bundle["main"]], os.path.basename(bundle["main"]), budget)
+            finally:
+                ctx.dir = saved
+                shutil.rmtree(d, ignore_errors=True)
     p = os.path.join(ctx.dir, name)
     with open(p, "wb") as fh:
-        fh.write(text if isinstance(text, bytes) else text.encode("utf-8", "surrogateescape"))
+        fh.write(raw)
     out = p + ".nvm"
     if os.path.exists(out):
         os.unlink(out)
@@ -201,6 +222,39 @@ def replay(path):
     v, d = oracle(ctx, data, "replay.nano")
     print("replay:", v, d)
     return 1 if v == "violation" else 0
+
+
+def import_graph_cases():
+    """Every import graph over a main file and up to two modules (edges main->m, m->m incl. self loops and cycles,
+    an edge to a file that does not exist, a module with a syntax error): 3 x 2^6 shapes, all enumerated."""
+    cases = {}
+    names = ["p", "a", "b"]
+    for mask in range(1 << 6):
+        edges = [(i, j) for k, (i, j) in enumerate([(0, 1), (0, 2), (1, 1), (1, 2), (2, 1), (2, 2)]) if mask >> k & 1]
+        for extra in ("none", "missing", "broken"):
+            files = {}
+            for i, n in enumerate(names):
+                imps = ['from "%s.nano" import f_%s' % (names[j], names[j]) for (x, j) in edges if x == i]
+                if extra == "missing" and i == 1:
+                    imps.append('from "nowhere.nano" import zzz')
+                calls = " ".join("(f_%s x)" % names[j] for (x, j) in edges if x == i and j != i)
+                body = "    return (+ x 1)" if not calls else "    return (+ 1 %s)" % ("(f_%s x)" % names[[j for (x, j) in edges if x == i and j != i][0]])
+                if i == 0:
+                    files["p.nano"] = "\n".join(imps) + "\nfn main() -> int {\n    let x: int = 1\n" + body.replace("return", "(println") .replace("\n", "") + ")\n    return 0\n}\nshadow main { assert true }\n"
+                else:
+                    txt = "\n".join(imps) + "\npub fn f_%s(x: int) -> int {\n%s\n}\nshadow f_%s { assert true }\n" % (n, body, n)
+                    if extra == "broken" and i == 2:
+                        txt += "fn oops( {\n"
+                    files[n + ".nano"] = txt
+            cases["imports_%02d_%s" % (mask, extra)] = json.dumps({"files": files, "main": "p.nano"})
+    return cases
+
+
+def import_job(args):
+    idx, name, text = args
+    ctx = make_ctx(500 + idx % 16, "quick", {})
+    v, d = oracle(ctx, text, "ig%d.nano" % idx)
+    return (name, v, d)
 
 
 def ramp_job(args):
@@ -311,6 +365,21 @@ def main(tier):
         if v == "violation":
             common.report_known(PROP, "%s [%s]" % (f["what"], f["id"]))
             ev.known.append(f["id"])
+    # import graphs (files that exist: cycles, self imports, missing and broken modules)
+    igs = import_graph_cases()
+    for (name, v, d) in common.parallel_map(import_job, [(i, n, t) for i, (n, t) in enumerate(sorted(igs.items()))]):
+        ev.case("import_graph:" + name, v == "ok")
+        ev.cls("import_graph_" + (d if v == "ok" else v))
+        if v == "inconclusive":
+            ev.inconclusive += 1
+        if v == "violation":
+            again = [oracle(ctx, igs[name], "ig_confirm.nano")[0] for _ in range(2)]
+            if all(a == "violation" for a in again):
+                p = common.save_replay(PROP, "%s.json" % name, igs[name])
+                print("C09: import graph %s: %s" % (name, d))
+                common.report_violation(PROP, p)
+                nviol += 1
+                break            # one root cause is enough to report; the rest of the family repeats it
     # ramps
     ramps = ramp_cases(tier)
     res = common.parallel_map(ramp_job, [(i, n, t) for i, (n, t) in enumerate(sorted(ramps.items()))])
